@@ -125,6 +125,8 @@ def run_static(case):
     empty = case["n"] == 0
     seen = []                      # distinct returned sets, in order of first appearance
     since = []                     # ids returned since the sampler became static
+    f0 = 0                         # number of distinct sets returned before the sampler became static
+    spec_checks = []               # (op index, call number, f0, interval, ids since static, returned id): judged by Lean's specNext
     prev = None
     toks, problems = [], []
     ncall = 0
@@ -136,6 +138,7 @@ def run_static(case):
                 problems.append((j, "make_static did not return a static sampler"))
             if not was_static:
                 since = []
+                f0 = len(seen)
             k = op[1]
             continue
         d = op[1]
@@ -194,11 +197,12 @@ def run_static(case):
             if not expect_cached and not fresh:
                 problems.append((j, f"static sampler: sample call {ncall} returned the old set #{ident} again but {why}: "
                                     f"a fresh set must be drawn"))
+            spec_checks.append((j, ncall, f0, k, list(since), ident))
             since.append(ident)
         if fresh and not (drawn and under.rec_draws[-1].shape == t.shape and torch.equal(under.rec_draws[-1], t)):
             problems.append((j, f"sample call {ncall} returned a new point set that is not the set drawn from the underlying sampler"))
         prev = t
-    return dict(text=" ".join(toks), problems=problems)
+    return dict(text=" ".join(toks), problems=problems, spec_checks=spec_checks)
 
 
 def static_line(case):
@@ -352,9 +356,15 @@ def run_adaptive(case):
                     problems.append((j, f"adaptive call {j + 1}: replacement for row {i} = {rows[i]} lies outside the domain"))
                 if filt is not None and not rows[i][0] > 1.0:
                     problems.append((j, f"adaptive call {j + 1}: replacement for row {i} = {rows[i]} violates the sampler's filter"))
-                if draw is not None and tuple(draw[i].tolist()) != rows[i]:
-                    problems.append((j, f"adaptive call {j + 1}: replacement for row {i} is not row {i} of the fresh uniform sample"))
-            org.append(prev_org[i] if (same[i] and prev_org) else (j, i))
+            if same[i] and prev_org:
+                org.append(prev_org[i])
+            elif draw is not None:
+                # which row of the fresh uniform sample is it?  (the model says: the row with the same index; any fresh point
+                # inside the domain satisfies the property, so a different index is a correspondence matter only)
+                src = [r for r in range(n0) if tuple(draw[r].tolist()) == rows[i]]
+                org.append((j, i if i in src else (src[0] if src else "?")))
+            else:
+                org.append((j, i))
         all_rows.update(rows)
         texts.append(" ".join(f"{a}.{b}" for a, b in org))
         prev, prev_org = t, org
@@ -593,6 +603,21 @@ def run(ctx, rep, cases=None, oracle_only=False):
     if not oracle_only:
         try:
             replies = common.run_driver("C15", [r["line"] for r in results])
+        except common.DriverFailure as e:
+            failure = e
+    if failure is None and not oracle_only:
+        # the documented rule as stated in Lean (`specNext`, the right-hand side of theorem static_history), evaluated by the
+        # driver on the ids the IMPLEMENTATION returned: an oracle that does not go through the model's state machine
+        checks = [(r, ch) for r in results for ch in r.get("spec_checks", [])]
+        try:
+            answers = common.run_driver("C15", [f"spec {f0} {k} {lst(since)}" for _, (_, _, f0, k, since, _) in checks])
+            for (r, (j, ncall, f0, k, since, ident)), a in zip(checks, answers):
+                rep.count("static:calls-judged-by-Lean-specNext")
+                if a != str(ident):
+                    r["problems"].append((j, f"static sampler: sample call {ncall} returned set #{ident}; after the sets {since} "
+                                             f"(since it became static) and with resample_interval={k} the documented rule "
+                                             f"(Lean: specNext, theorem static_history) requires set #{a}"))
+                    r["problems"].sort(key=lambda p: p[0])
         except common.DriverFailure as e:
             failure = e
     for i, (c, r) in enumerate(zip(cases, results)):
